@@ -363,9 +363,10 @@ def aten_all_dims(
     if len(dim) == 0:
         # An explicit empty list reduces nothing in PyTorch (only dim=None reduces everything)
         return op.Cast(self, to=BOOL.dtype)
+    self_is_scalar = len(self.shape) == 0
     for d in dim:
         self = aten_all_dim(self, d, keepdim=True)
-    if not keepdim:
+    if not keepdim and not self_is_scalar:
         self = op.Squeeze(self, list(dim))
     return self
 
@@ -510,9 +511,10 @@ def aten_any_dims(
     if len(dim) == 0:
         # An explicit empty list reduces nothing in PyTorch (only dim=None reduces everything)
         return op.Cast(self, to=BOOL.dtype)
+    self_is_scalar = len(self.shape) == 0
     for d in dim:
         self = aten_any_dim(self, d, keepdim=True)
-    if not keepdim:
+    if not keepdim and not self_is_scalar:
         self = op.Squeeze(self, list(dim))
     return self
 
@@ -7989,8 +7991,12 @@ def aten_prod(self: TReal, dtype: int = -1) -> TReal:
 def aten_prod_dim_int(self: TReal, dim: int, keepdim: bool = False, dtype: int = -1) -> TReal:
     """prod.dim_int(Tensor self, int dim, bool keepdim=False, *, ScalarType? dtype=None) -> Tensor"""
 
+    self_is_scalar = len(self.shape) == 0
     if dtype != -1 and dtype is not None:
         self = op.Cast(self, to=dtype)
+    if self_is_scalar:
+        # PyTorch accepts dim 0 / -1 on a 0-d tensor; ONNX rejects any axis for rank 0
+        return op.Identity(self)
     return op.ReduceProd(self, axes=[dim], keepdims=keepdim)
 
 
